@@ -218,6 +218,14 @@ func run(c Case) {
 		}
 		h.Outcome("client-decoded")
 	}
+	// (a') parameter formats: byte for byte the layout of what was set
+	if e.Ref != nil {
+		if want := e.Ref.Encode(); string(want) != string(e.Enc) {
+			h.Violate("C06|"+kind+"|written-differs-from-layout|"+layoutClass(e.Name), fmt.Sprintf("%s: the library wrote %x, the layout of %s is %x", e.Name, head64(e.Enc), clip(e.Ref.Desc()), head64(want)), c)
+			return
+		}
+		h.Outcome("client-layout")
+	}
 	// (b) read back what the library wrote
 	var back tds.Package
 	var err error
@@ -275,6 +283,24 @@ func run(c Case) {
 		}
 		h.Outcome("lib-roundtrip")
 	}
+}
+
+// layoutClass: data type of a paramfmt corpus entry (…-dt<hex>-…), so that one type never masks another
+func layoutClass(name string) string {
+	if i := strings.Index(name, "-dt"); i >= 0 {
+		rest := name[i+1:]
+		if j := strings.IndexByte(rest, '-'); j >= 0 {
+			return rest[:j]
+		}
+	}
+	return "status-bits"
+}
+
+func head64(b []byte) []byte {
+	if len(b) > 64 {
+		return b[:64]
+	}
+	return b
 }
 
 func head(b []byte) []byte {
